@@ -209,8 +209,10 @@ def atom_tex(words, i, rng):
         else: s = rng.choice(['\\lengthtest{1cm<2cm}', '\\lengthtest{1cm<+2cm}', '\\lengthtest{-1cm<2mm}', '\\lengthtest{+5mm<1cm}',
                               # the same length written in two units (exact in TeX's unit table) is equal
                               '\\lengthtest{254cm=100in}', '\\lengthtest{2540mm=100in}', '\\lengthtest{7227pt=100in}', '\\lengthtest{1pc=12pt}',
-                              '\\lengthtest{1in=2.54cm}', '\\lengthtest{72bp=1in}', '\\lengthtest{1cm=10mm}']) if t else rng.choice(
-                             ['\\lengthtest{3pt>1in}', '\\lengthtest{+3pt>1in}', '\\lengthtest{3pt<-1in}', '\\lengthtest{1cm=1.0001cm}', '\\lengthtest{254cm>100in}', '\\lengthtest{1in<72.27pt}'])
+                              '\\lengthtest{1in=2.54cm}', '\\lengthtest{72bp=1in}', '\\lengthtest{1cm=10mm}',
+                              # length registers as operands (read, never assigned, also inside a \\whiledo test)
+                              '\\lengthtest{\\mylen>1cm}', '\\lengthtest{0.5\\mylen<2cm}', '\\lengthtest{1cm<\\mylen}', '\\lengthtest{\\mylen=2cm}']) if t else rng.choice(
+                             ['\\lengthtest{3pt>1in}', '\\lengthtest{+3pt>1in}', '\\lengthtest{3pt<-1in}', '\\lengthtest{1cm=1.0001cm}', '\\lengthtest{254cm>100in}', '\\lengthtest{1in<72.27pt}', '\\lengthtest{\\mylen<1cm}', '\\lengthtest{3\\mylen<\\mylen}'])
         return s, i + 1
     if w == 'C':
         a, r, b = words[i + 1:i + 4]
@@ -219,6 +221,9 @@ def atom_tex(words, i, rng):
             pre = w[:len(w) - len(c)].replace('_', ' ')
             k = rng.randrange(4)
             if k == 0 and int(c) <= 12: c = '\\value{cnt%s}' % int(c)
+            elif k == 2 and 1 <= int(c) <= 3 and pre.count('-') % 2 == 1 and rng.random() < 0.7:
+                # a counter that holds the negative value itself (its digits come from Counter.arabic)
+                pre, c = pre.replace('-', '', 1), '\\value{cntm%s}' % int(c)
             elif k == 1 and c == '5': c = '\\numA'
             return pre + c
         sp = ' ' if rng.random() < 0.5 else ''
@@ -242,7 +247,7 @@ def expr_tex(words, i, rng):
     return '%s %s %s' % (s1, op, s2), k
 
 
-PREAMBLE = ('\\def\\emptymac{}\\newboolean{flagT}\\setboolean{flagT}{true}\\newboolean{flagF}\\def\\numA{5}' +
+PREAMBLE = ('\\newdimen\\mylen \\mylen=2cm \\newcounter{cntm1}\\setcounter{cntm1}{-1}\\newcounter{cntm2}\\setcounter{cntm2}{-2}\\newcounter{cntm3}\\setcounter{cntm3}{-3}\\def\\emptymac{}\\newboolean{flagT}\\setboolean{flagT}{true}\\newboolean{flagF}\\def\\numA{5}' +
             ''.join('\\newcounter{cnt%d}\\setcounter{cnt%d}{%d}' % (i, i, i) for i in range(13)))
 
 
